@@ -9,13 +9,13 @@ from vlib import core, lcase, puml
 
 PROP = "C03"
 VARIANTS = ["base", "job-order", "event-order", "fresh-ids", "time-shift", "dup-same-ids",
-            "dup-new-ids", "all"]
+            "dup-new-ids", "all", "group-by-job"]
 
 
 def workload(tier: str, seed: int) -> tuple[list[dict], list[dict], dict]:
     if tier == "quick":
         want = {"corpus": 1, "core-exh": 40, "core-rand": 40, "edge": 10}
-        npres, s2 = 8, 1
+        npres, s2 = 9, 1
     else:
         want = {"corpus": 1, "core-exh": 100000, "core-rand": 600, "edge": 80}
         npres, s2 = 16, 2
@@ -26,11 +26,13 @@ def workload(tier: str, seed: int) -> tuple[list[dict], list[dict], dict]:
     stats["definitions"] = len(defs)
     groups = base + b2
     cases = []
+    wd = core.work_dir()
     for g, b in enumerate(groups):
         for p in range(npres):
-            variant = VARIANTS[p % len(VARIANTS)] if p < len(VARIANTS) else "all"
+            variant = VARIANTS[p] if p < len(VARIANTS) else ("all", "group-by-job")[p % 2]
             cases.append({"group": g, "name": b["name"], "jobs": b["jobs"], "variant": variant,
-                          "uuid_seed": f"{seed}-{g}-{p}", "rng_seed": f"{seed}-{g}-{p}"})
+                          "uuid_seed": f"{seed}-{g}-{p}", "rng_seed": f"{seed}-{g}-{p}",
+                          "work_dir": wd})
     stats["presentations_per_job_set"] = npres
     return groups, cases, stats
 
@@ -85,7 +87,8 @@ def main(tier: str, seed: int) -> int:
              "corpus-63, exhaustive-small + random F_core and F_edge definitions; every job "
              "set is learned under N presentations (identity, job order, event order inside "
              "the job file, fresh event/job ids, shifted timestamps, a job supplied twice with "
-             "the same / with new ids, all together), each in a worker with its own "
+             "the same / with new ids, all together, and one file per event with the files of "
+             "different jobs interleaved through the real -group-by-job regrouping), each in a worker with its own "
              "PYTHONHASHSEED and uuid4 stream. distinct = distinct (definition, stratum, size); "
              "trivial = no fork or loop")
     chk.assumptions = [
@@ -191,9 +194,10 @@ def replay(path: str) -> int:
     npres = len(w["presentations"])
     cases = []
     for p in range(npres):
-        variant = VARIANTS[p % len(VARIANTS)] if p < len(VARIANTS) else "all"
+        variant = VARIANTS[p] if p < len(VARIANTS) else ("all", "group-by-job")[p % 2]
         cases.append({"group": 0, "name": b["name"], "jobs": b["jobs"], "variant": variant,
-                      "uuid_seed": f"{seed}-{g}-{p}", "rng_seed": f"{seed}-{g}-{p}"})
+                      "uuid_seed": f"{seed}-{g}-{p}", "rng_seed": f"{seed}-{g}-{p}",
+                      "work_dir": core.work_dir()})
     bad = False
     rs = []
     for c, pinfo in zip(cases, w["presentations"]):
